@@ -533,6 +533,104 @@ func runSort(c *core.Ctx) {
 			c.Pass(key, sortCall.Pos(), "fill → sort → truncate → marshal")
 		}
 	}
+	// the list may be produced by a helper: the Tags field of the TagList that is marshalled is initialised with the result of a
+	// function of this module every return of which returns a slice that was sorted after its last append; the handler then
+	// only truncates it
+	for _, fn := range serverFuncs(c) {
+		var tlAlloc *ssa.Alloc
+		an.Instrs(fn, func(in ssa.Instruction) {
+			if al, ok := in.(*ssa.Alloc); ok && isNamedType(an.Deref(al.Type()), r.TypesPath, "TagList") {
+				tlAlloc = al
+			}
+		})
+		if tlAlloc == nil {
+			continue
+		}
+		var helperCall *ssa.Call
+		var appendsAfter []ssa.Instruction
+		marshalled := false
+		an.Instrs(fn, func(in ssa.Instruction) {
+			switch x := in.(type) {
+			case *ssa.Store:
+				r2, p2 := accessPath(x.Addr)
+				if r2 != ssa.Value(tlAlloc) || len(p2) != 1 || p2[0] != "Tags" {
+					return
+				}
+				switch v := x.Val.(type) {
+				case *ssa.Call:
+					if bi, ok := v.Call.Value.(*ssa.Builtin); ok && bi.Name() == "append" {
+						appendsAfter = append(appendsAfter, x)
+					} else if sc := v.Call.StaticCallee(); sc != nil && core.FuncPkgPath(sc) == c.P.Module {
+						helperCall = v
+					}
+				}
+			case *ssa.Call:
+				if an.IsFunc(x, "encoding/json", "Marshal") {
+					if u, ok := an.Strip(x.Call.Args[0]).(*ssa.UnOp); ok && u.X == ssa.Value(tlAlloc) {
+						marshalled = true
+					}
+				}
+			}
+		})
+		if helperCall == nil {
+			continue
+		}
+		h := helperCall.Call.StaticCallee()
+		// inside the helper: every return returns a slice on which sort ran after the last append
+		okHelper := true
+		nret := 0
+		for _, b := range h.Blocks {
+			if len(b.Instrs) == 0 {
+				continue
+			}
+			ret, ok := b.Instrs[len(b.Instrs)-1].(*ssa.Return)
+			if !ok || len(ret.Results) != 1 {
+				continue
+			}
+			nret++
+			var sorted *ssa.Call
+			an.Calls(h, func(call ssa.CallInstruction) {
+				if cc, ok := call.(*ssa.Call); ok && (an.IsFunc(call, "sort", "Strings") || an.IsFunc(call, "slices", "Sort")) {
+					if an.Origin(cc.Call.Args[0]) == an.Origin(ret.Results[0]) || an.Strip(cc.Call.Args[0]) == an.Strip(ret.Results[0]) {
+						if cc.Block().Dominates(ret.Block()) {
+							sorted = cc
+						}
+					}
+				}
+			})
+			if sorted == nil {
+				okHelper = false
+				continue
+			}
+			// no append to the returned slice's variable after the sort
+			an.Instrs(h, func(in ssa.Instruction) {
+				if cl, ok := in.(*ssa.Call); ok {
+					if bi, ok := cl.Call.Value.(*ssa.Builtin); ok && bi.Name() == "append" && cl.Type().String() == ret.Results[0].Type().String() {
+						if an.Reaches(sorted, cl) {
+							okHelper = false
+						}
+					}
+				}
+			})
+		}
+		n++
+		key := "order:" + kn(c.P.FuncName(fn))
+		var problems []string
+		if !okHelper || nret == 0 {
+			problems = append(problems, fmt.Sprintf("%s does not return a list that is sorted after its last append on every path", c.P.FuncName(h)))
+		}
+		if len(appendsAfter) > 0 {
+			problems = append(problems, fmt.Sprintf("tags are appended at %s after the sorted list was taken from %s", c.P.Pos(appendsAfter[0].Pos()), c.P.FuncName(h)))
+		}
+		if !marshalled {
+			problems = append(problems, "the sorted list is not what is marshalled")
+		}
+		if len(problems) > 0 {
+			c.Fail(key, helperCall.Pos(), "%s", strings.Join(problems, "; "))
+		} else {
+			c.Pass(key, helperCall.Pos(), "fill → sort (in %s) → truncate → marshal", c.P.FuncName(h))
+		}
+	}
 	if n == 0 {
 		c.Unresolved("tag-list", "no handler sorting a TagList found")
 	}
@@ -903,7 +1001,7 @@ func runPageCounter(c *core.Ctx, r *Roles) {
 				if len(args) == 0 {
 					return
 				}
-				for _, vals := range structStores(an.Strip(args[0])) {
+				for _, vals := range keyFields(args[0]) {
 					for _, v := range vals {
 						if strings.HasSuffix(v.Type().String(), "go-digest.Digest") {
 							respDig = v
